@@ -98,6 +98,9 @@ func (s *orRuleSetLoader) objectBegin(lex lexeme.LexEvent) {
 // ex: {"key" <--
 // ex: {...} <--
 func (s *orRuleSetLoader) keyOrObjectEnd(lex lexeme.LexEvent) {
+	if isNoteInsideAnnotation(lex) {
+		return
+	}
 	switch lex.Type() {
 	case lexeme.ObjectKeyBegin:
 		return
@@ -119,6 +122,9 @@ func (s *orRuleSetLoader) keyOrObjectEnd(lex lexeme.LexEvent) {
 // valueBegin object value begin
 // ex: {"key": <--
 func (s *orRuleSetLoader) valueBegin(lex lexeme.LexEvent) {
+	if isNoteInsideAnnotation(lex) {
+		return
+	}
 	if lex.Type() != lexeme.ObjectValueBegin {
 		panic(errors.ErrLoader)
 	}
@@ -126,6 +132,9 @@ func (s *orRuleSetLoader) valueBegin(lex lexeme.LexEvent) {
 }
 
 func (s *orRuleSetLoader) enumValueBegin(lex lexeme.LexEvent) {
+	if isNoteInsideAnnotation(lex) {
+		return
+	}
 	if lex.Type() != lexeme.ObjectValueBegin {
 		panic(errors.ErrLoader)
 	}
